@@ -95,7 +95,7 @@ def diag_reason(path):
     return None
 
 
-def analyse_root(prog, fi, kind, rep, stats):
+def analyse_root(prog, fi, kind, rep, stats, RA="R-C17-a", RB="R-C17-b", extra=True):
     I = Interp(prog, hints.param_types_for(fi.module), hints.FIELD_TYPES, max_depth=10)
     fr = I.run(fi)
     ctx = own.OwnCtx(I)
@@ -106,7 +106,7 @@ def analyse_root(prog, fi, kind, rep, stats):
     params = fi.params()
     selfname = params[0] if (fi.cls is not None and not fi.is_static and params) else None
     if I.depth_cuts:
-        rep.undecided("R-C17-a", where0, "inlining depth", "call chain cut at depth %d: %s" % (I.max_depth, [(a.qualname, b.qualname) for a, b, _ in I.depth_cuts][:3]))
+        rep.undecided(RA, where0, "inlining depth", "call chain cut at depth %d: %s" % (I.max_depth, [(a.qualname, b.qualname) for a, b, _ in I.depth_cuts][:3]))
     viol = {}
     und = {}
     nwrites = 0
@@ -120,7 +120,7 @@ def analyse_root(prog, fi, kind, rep, stats):
                 und[key] = m
                 continue
             if r[0] == "GLOBAL":
-                key = ("R-C17-b", m.ev.fi.fq, "module-level %s: %s" % (r[1], m.what))
+                key = (RB, m.ev.fi.fq, "module-level %s: %s" % (r[1], m.what))
                 viol[key] = (m, "a module-level object is written: results could depend on earlier calls")
                 continue
             pname, path = r[1], r[2]
@@ -132,17 +132,17 @@ def analyse_root(prog, fi, kind, rep, stats):
             if is_self:
                 if kind in ("ctor", "mutator"):
                     continue
-                rule = "R-C17-b"
+                rule = RB
                 why = "writes %s%s outside a constructor: state carried between calls" % (pname, path)
             else:
                 if (fi.fq, pname) == CONSTRUCTOR_NORMALISATION[:2] and m.ev.fi.fq == fi.fq:
                     stats["exceptions"][CONSTRUCTOR_NORMALISATION[2]] = 1
                     continue
                 if kind == "cube" and pname == "funcs":
-                    rule = "R-C17-b"
+                    rule = RB
                     why = "an aggregate-function object's state (%s) is written during calculate: re-using the object would see it" % path
                 else:
-                    rule = "R-C17-a"
+                    rule = RA
                     why = "storage reachable from the caller's argument '%s' (%s) is written" % (pname, path or "the object itself")
             key = (rule, m.ev.fi.fq, "%s -> %s%s" % (m.what, pname, path))
             viol.setdefault(key, (m, why))
@@ -151,11 +151,13 @@ def analyse_root(prog, fi, kind, rep, stats):
                      witness={"statement": m.ev.src()[:120], "entry point": fi.fq,
                               "call path": [f.qualname for f, _ in m.ev.stack]})
     for (w, what, nm), m in und.items():
-        rep.undecided("R-C17-a", "%s@%d" % (w, m.ev.line), "root %s: %s" % (fi.qualname, what), "target's storage comes from a callee outside the summary table: %s" % nm)
+        rep.undecided(RA, "%s@%d" % (w, m.ev.line), "root %s: %s" % (fi.qualname, what), "target's storage comes from a callee outside the summary table: %s" % nm)
     if not viol and not und:
-        rep.proved("R-C17-a" if kind not in ("cube", "agg") else "R-C17-b", where0, "root %s" % fi.qualname,
+        rep.proved(RA if kind not in ("cube", "agg") else RB, where0, "root %s" % fi.qualname,
                    "%d write events, every target FRESH%s" % (nwrites, " or a named diagnostic" if stats["diagnostic"] else ""),
                    nontrivial=nwrites > 0)
+    if not extra:
+        return I
     # R-C17-c
     if kind == "regions" and fi.cls.name not in ("ffunc", "xfunc"):
         bad = []
